@@ -169,10 +169,10 @@ class SLCDriver(CIPDriver):
             UINT.encode(next(self._sequence)),  # transaction identifier
             SLC_FNC_READ,  # function code
             USINT.encode(PCCC_DATA_SIZE[_tag["file_type"]] * _tag["element_count"]),  # byte size
-            USINT.encode(int(_tag["file_number"])),
+            _address_field(int(_tag["file_number"])),
             PCCC_DATA_TYPE[_tag["file_type"]],
-            USINT.encode(int(_tag["element_number"])),
-            USINT.encode(int(_tag.get("pos_number", 0))),  # sub-element number
+            _address_field(int(_tag["element_number"])),
+            _address_field(int(_tag.get("pos_number", 0))),  # sub-element number
         ]
 
         request = SendUnitDataRequestPacket(self._sequence)
@@ -233,10 +233,10 @@ class SLCDriver(CIPDriver):
             UINT.encode(next(self._sequence)),
             SLC_FNC_WRITE,
             USINT.encode(_tag["data_size"] * _tag["element_count"]),
-            USINT.encode(int(_tag["file_number"])),
+            _address_field(int(_tag["file_number"])),
             PCCC_DATA_TYPE[_tag["file_type"]],
-            USINT.encode(int(_tag["element_number"])),
-            USINT.encode(int(_tag.get("pos_number", 0))),
+            _address_field(int(_tag["element_number"])),
+            _address_field(int(_tag.get("pos_number", 0))),
             writeable_value(_tag, value),
         ]
         request = SendUnitDataRequestPacket(self._sequence)
@@ -728,6 +728,14 @@ def parse_tag(tag: str) -> Optional[dict]:
         }
 
     return None
+
+
+def _address_field(value: int) -> bytes:
+    """
+    File, element and sub-element numbers of the typed logical commands are one byte,
+    values above 254 are sent as 0xFF followed by the 16-bit value (DF1 manual, 1770-6.5.16)
+    """
+    return USINT.encode(value) if value < 255 else b"\xFF" + UINT.encode(value)
 
 
 def get_bit(value: int, idx: int) -> bool:
